@@ -48,4 +48,18 @@ Section EndToEnd.
   Proof.
     intros H Hok He Hf Hr. apply front_end_ok_inv in H as [_ ->]. eapply pass_implies_sat; eassumption.
   Qed.
+
+  (* the same for the whole assertion as fn expand arranges it (Sem.exec_top: a root `_` evaluates the asserted expression
+     and asserts nothing; every other root pattern is its own expansion) *)
+  Theorem macro_assertion_reports_the_frontier start ts v p code en val t fr :
+    front_end_from start ts = FEOk v p code ->
+    SemP.pat_ok (e_units en) p = true ->
+    eval en (VRoot (u_toks v)) = Some (val, t) ->
+    frontier (e_caller en) (e_units en) p val = Some fr ->
+    exists tr, exec_top join_ok p (u_toks v) en = Some (fr, tr).
+  Proof.
+    intros H Hok He Hf. unfold exec_top. destruct (is_wild p) eqn:Ew.
+    - destruct p; try discriminate. cbn [frontier] in Hf. inversion Hf; subst. cbn [eval]. eexists; reflexivity.
+    - apply front_end_ok_inv in H as [_ _]. eapply exec_expand_frontier; eassumption.
+  Qed.
 End EndToEnd.
